@@ -581,6 +581,21 @@ pub fn run(op: &str, a: &[&str]) -> Vec<String> {
             c.update(&m).finalize_at(&mut o);
             vec![hex(&o)]
         }
+        // b2b_at / b2s_at <outlen> <key> <data> <buflen> : finalize_at into a buffer of another size
+        "b2b_at" | "b2s_at" => {
+            let n = usz(a[0]);
+            let k = expand(a[1]);
+            let m = expand(a[2]);
+            let mut o = vec![0u8; usz(a[3])];
+            if op == "b2b_at" {
+                let c = if k.is_empty() { blake2b::ContextDyn::new(n) } else { blake2b::ContextDyn::new_keyed(n, &k) };
+                c.update(&m).finalize_at(&mut o);
+            } else {
+                let c = if k.is_empty() { blake2s::ContextDyn::new(n) } else { blake2s::ContextDyn::new_keyed(n, &k) };
+                c.update(&m).finalize_at(&mut o);
+            }
+            vec![hex(&o)]
+        }
         "b2bt" => vec![hex(&b2b_typed(usz(a[0]), &expand(a[1]), &expand(a[2])))],
         "b2st" => vec![hex(&b2s_typed(usz(a[0]), &expand(a[1]), &expand(a[2])))],
         "b2blegacy" => {
